@@ -24,6 +24,16 @@ type Leaf struct {
 	Hosts  []string
 	PEM    []byte // certificate PEM
 	KeyPEM []byte
+	CADER  []byte // the issuing CA's certificate (EC P-256, RSA-2048 or Ed25519 key)
+}
+
+// Issuer parses a fresh copy of the issuing CA's certificate.
+func (l *Leaf) Issuer() *x509.Certificate {
+	c, err := x509.ParseCertificate(l.CADER)
+	if err != nil {
+		panic(err)
+	}
+	return c
 }
 
 // Cert parses a fresh *x509.Certificate (never shared between runs/tasks
@@ -66,7 +76,8 @@ func mustPEM(name string) ([]byte, []byte) {
 
 func init() {
 	CADER, _ = mustPEM("ca.cert.pem")
-	for _, n := range []string{"a-p256", "a2-p256", "b-p384", "c-p256", "d-p384"} {
+	cas := map[string]string{"e-p256": "ca-rsa.cert.pem", "f-p384": "ca-ed25519.cert.pem"}
+	for _, n := range []string{"a-p256", "a2-p256", "b-p384", "c-p256", "d-p384", "e-p256", "f-p384"} {
 		der, cpem := mustPEM(n + ".cert.pem")
 		kder, kpem := mustPEM(n + ".key.pem")
 		k, err := x509.ParseECPrivateKey(kder)
@@ -77,7 +88,11 @@ func init() {
 		if err != nil {
 			panic(err)
 		}
-		Leaves = append(Leaves, &Leaf{Name: n, DER: der, Key: k, Hosts: c.DNSNames, PEM: cpem, KeyPEM: kpem})
+		ca := CADER
+		if f, ok := cas[n]; ok {
+			ca, _ = mustPEM(f)
+		}
+		Leaves = append(Leaves, &Leaf{Name: n, DER: der, Key: k, Hosts: c.DNSNames, PEM: cpem, KeyPEM: kpem, CADER: ca})
 	}
 }
 
